@@ -32,9 +32,22 @@
 /* p is the string "tls.key" (XCM_ATTR_TLS_KEY) */
 #define XV_IS_TLS_KEY(p) ((p)[0] == 't' && (p)[1] == 'l' && (p)[2] == 's' && (p)[3] == '.' && (p)[4] == 'k' && (p)[5] == 'e' && (p)[6] == 'y' && (p)[7] == 0)
 
-/* byte j of the value field of a struct ctl_proto_attr, by address: `attr.any_value[j]` names a member of an anonymous union
- * and CBMC reads the whole 512-byte union to get at one byte (512 array reads at a symbolic offset per mention) */
-#define XV_ANYV(attr, j) (((uint8_t *)&(attr))[offsetof(struct ctl_proto_attr, any_value) + (j)])
+/* Fields of the wire structs are read BY ADDRESS, as scalars.  Written the natural way, `msg->get_attr_cfm.attr.value_len` makes
+ * CBMC read the whole 37 896-byte union and project, `cfm->attrs[i].value_type` at a two-target pointer the whole 592-byte
+ * entry, `attr.any_value[j]` the whole 512-byte union: at a symbolic address that is one array read per BYTE and mention
+ * (process_client ran out of 14 GB).  ap: address of a struct ctl_proto_attr, cp: of a struct ctl_proto_get_all_attr_cfm,
+ * mp: of a struct ctl_proto_msg. */
+#define XV_FLD(T, base, off) (*(T *)((uint8_t *)(base) + (off)))
+#define XV_ATTR_TYPE(ap) XV_FLD(int, ap, offsetof(struct ctl_proto_attr, value_type))
+#define XV_ATTR_LEN(ap) XV_FLD(size_t, ap, offsetof(struct ctl_proto_attr, value_len))
+#define XV_ATTR_NAME(ap, k) XV_FLD(char, ap, offsetof(struct ctl_proto_attr, name) + (k))
+#define XV_ATTR_VAL(ap, k) XV_FLD(uint8_t, ap, offsetof(struct ctl_proto_attr, any_value) + (k))
+#define XV_CFM_LEN(cp) XV_FLD(size_t, cp, offsetof(struct ctl_proto_get_all_attr_cfm, attrs_len))
+#define XV_CFM_ATTRP(cp, i) ((uint8_t *)(cp) + offsetof(struct ctl_proto_get_all_attr_cfm, attrs) + (i) * sizeof(struct ctl_proto_attr))
+#define XV_MSG_TYPE(mp) XV_FLD(int, mp, offsetof(struct ctl_proto_msg, type))
+#define XV_MSG_ATTRP(mp) ((uint8_t *)(mp) + offsetof(struct ctl_proto_msg, get_attr_cfm.attr))
+#define XV_MSG_REJ_ERRNO(mp) XV_FLD(int, mp, offsetof(struct ctl_proto_msg, get_attr_rej.rej_errno))
+#define XV_MSG_CFMP(mp) ((uint8_t *)(mp) + offsetof(struct ctl_proto_msg, get_all_attr_cfm))
 
 #ifndef XV_CTL_NAME_OBJ
 #define XV_CTL_NAME_OBJ 96      /* attribute names of 0..95 characters are explored (the wire field holds 63) */
@@ -65,19 +78,20 @@ _Bool *xv_ctl_live;            /* [XV_CTL_REGS] registration id exists   */
 int *xv_ctl_ev;                /* [XV_CTL_REGS] its epoll event mask     */
 #define XV_CTL_EP_OBJS __CPROVER_object_whole(xv_ctl_live), __CPROVER_object_whole(xv_ctl_ev)
 struct xpoll *xv_ctl_xpoll;    /* ghost constant: the xpoll instance of the socket owning the ctl */
-long xv_ctl_ep_ops;            /* number of xpoll_fd_reg_add/mod/del calls (each may touch the epoll set) */
+unsigned long xv_ctl_ep_ops;   /* number of xpoll_fd_reg_add/mod/del calls (each may touch the epoll set) */
 int xv_ctl_reg;                /* ghost index (never assigned): an ARBITRARY registration id */
 
-/* The records are grouped into one struct per stub: every assigns-clause target is one more object DFCC's havoc and
+/* Call counters are unsigned and may wrap: "calls == old + 1" is meant modulo 2^64, so no contract needs a range for them.
+ * The records are grouped into one struct per stub: every assigns-clause target is one more object DFCC's havoc and
  * inclusion checks range over (with ~45 single ghost variables process_client ran out of memory); the old names
  * are macros for the members. */
-struct xv_ctl_rd_s { long calls; _Bool readable; };                              /* ut_is_readable: count, last answer */
-struct xv_ctl_cls_s { long calls; int fd; };                                     /* ut_close: count, last fd */
-struct xv_ctl_acc_s { int rc; long fds_made; };                                  /* ut_accept result; socket()/accept4() successes */
-struct xv_ctl_rcv_s { long calls; int fd; long rc; int err; int req_type; _Bool req_cstr, req_key; };
-struct xv_ctl_snd_s { long calls; int fd; size_t len; long rc; int err; const void *buf; uint8_t byte_j; };
-struct xv_ctl_unl_s { long calls; char unlink_p; _Bool gsn_ok; char bound_p; };
-struct xv_ctl_get_s { int rv; int err; int type; uint8_t byte_j; long calls; };
+struct xv_ctl_rd_s { unsigned long calls; _Bool readable; };                              /* ut_is_readable: count, last answer */
+struct xv_ctl_cls_s { unsigned long calls; int fd; };                                     /* ut_close: count, last fd */
+struct xv_ctl_acc_s { int rc; unsigned long fds_made; };                                  /* ut_accept result; socket()/accept4() successes */
+struct xv_ctl_rcv_s { unsigned long calls; int fd; long rc; int err; int req_type; _Bool req_cstr, req_key; };
+struct xv_ctl_snd_s { unsigned long calls; int fd; size_t len; long rc; int err; const void *buf; uint8_t byte_j; };
+struct xv_ctl_unl_s { unsigned long calls; char unlink_p; _Bool gsn_ok; char bound_p; };
+struct xv_ctl_get_s { int rv; int err; int type; uint8_t byte_j; unsigned long calls; };
 struct xv_ctl_all_s { size_t n; int i_type; size_t i_len; uint8_t i_val_mc; char i_name_j; size_t i_namelen; size_t g_len0, g_namelen, g_len; };
 struct xv_ctl_rd_s xv_ctl_rd; struct xv_ctl_cls_s xv_ctl_cls; struct xv_ctl_acc_s xv_ctl_acc; struct xv_ctl_rcv_s xv_ctl_rcv;
 struct xv_ctl_snd_s xv_ctl_snd; struct xv_ctl_unl_s xv_ctl_unl; struct xv_ctl_get_s xv_ctl_get; struct xv_ctl_all_s xv_ctl_all;
@@ -120,7 +134,7 @@ size_t xv_ctl_p;               /* ghost index (never assigned): an ARBITRARY off
 #define xv_ctl_get_j xv_ctl_get.byte_j
 #define xv_ctl_get_calls xv_ctl_get.calls
 /* xcm_attr_get_all (stub below) */
-long xv_ctl_all_calls;         /* calls of xcm_attr_get_all */
+unsigned long xv_ctl_all_calls; /* calls of xcm_attr_get_all */
 #define xv_ctl_all_n xv_ctl_all.n              /* number of REPORTABLE attributes called back so far (name < 64, value <= 512, not tls.key) */
 size_t xv_ctl_i;               /* ghost index (never assigned): an ARBITRARY position in the sequence of reportable attributes */
 /* the xv_ctl_i-th reportable attribute: type, length, value byte at offset xv_mc (the offset the memcpy model tracks),
@@ -135,7 +149,7 @@ size_t xv_ctl_i;               /* ghost index (never assigned): an ARBITRARY pos
 #define xv_ctl_g_namelen xv_ctl_all.g_namelen
 #define xv_ctl_g_len xv_ctl_all.g_len
 #define AA_CFM(d) ((struct ctl_proto_get_all_attr_cfm *)(d))
-#define AA_ENTRY(d) (AA_CFM(d)->attrs[xv_ctl_g_len0])
+#define AA_ENTRYP(d) XV_CFM_ATTRP(d, xv_ctl_g_len0)
 #define AA_REPORTABLE(name, namelen, len) (!XV_IS_TLS_KEY(name) && (namelen) < XCM_ATTR_NAME_MAX && (len) <= CTL_ATTR_VALUE_MAX)
 #define AA_ADDS(name, namelen, len) (AA_REPORTABLE(name, namelen, len) && xv_ctl_g_len0 < CTL_PROTO_MAX_ATTRS)
 
@@ -150,15 +164,14 @@ static inline void xv_ctl_ghost_havoc(void)
     xv_ctl_ev = malloc(XV_CTL_REGS * sizeof(int) + (size_t)xv_ctl_z);
     __CPROVER_assume(xv_ctl_live != NULL && xv_ctl_ev != NULL);
     struct xpoll *ndp; xv_ctl_xpoll = ndp;
-    xv_ctl_ep_ops = nondet_long(); xv_ctl_reg = nondet_int();
+    xv_ctl_ep_ops = nondet_size_t(); xv_ctl_reg = nondet_int();
     struct xv_ctl_rd_s n1; xv_ctl_rd = n1; struct xv_ctl_cls_s n2; xv_ctl_cls = n2; struct xv_ctl_acc_s n3; xv_ctl_acc = n3;
     struct xv_ctl_rcv_s n4; xv_ctl_rcv = n4; struct xv_ctl_snd_s n5; xv_ctl_snd = n5; struct xv_ctl_unl_s n6; xv_ctl_unl = n6;
     struct xv_ctl_get_s n7; xv_ctl_get = n7; struct xv_ctl_all_s n8; xv_ctl_all = n8;       /* uninitialised locals: arbitrary */
-    xv_ctl_j = nondet_size_t(); xv_ctl_p = nondet_size_t(); xv_ctl_i = nondet_size_t(); xv_ctl_all_calls = nondet_long();
+    xv_ctl_j = nondet_size_t(); xv_ctl_p = nondet_size_t(); xv_ctl_i = nondet_size_t(); xv_ctl_all_calls = nondet_size_t();
 }
 #endif
 
-#define XV_CTL_CNT_OK(c) ((c) >= 0 && (c) < (1L << 40))   /* ghost call counters do not overflow */
 
 /* an errno value a failing system call leaves: any positive int */
 static inline int xv_ctl_any_errno(void) { int e = nondet_int(); __CPROVER_assume(e > 0); return e; }
@@ -463,21 +476,21 @@ void ctl_derive_path(const char *ctl_dir, pid_t creator_pid, int64_t sock_ref, c
  * (each fact is a read at a symbolic offset of the 38 KB reply, and the array theory's cost grows with reads x updates),
  * so job ctl.process_get_all_attr runs as three variants, each tracking one aspect (-DXV_CTL_TRACK=1|2|3); without
  * the macro all three are tracked. */
-#define XV_CTL_ENT_SHAPE(cfm) ((int)(cfm)->attrs[xv_ctl_i].value_type == xv_ctl_i_type && (cfm)->attrs[xv_ctl_i].value_len == xv_ctl_i_len && \
+#define XV_CTL_ENT_SHAPE(cp) (XV_ATTR_TYPE(XV_CFM_ATTRP(cp, xv_ctl_i)) == xv_ctl_i_type && XV_ATTR_LEN(XV_CFM_ATTRP(cp, xv_ctl_i)) == xv_ctl_i_len && \
         xv_ctl_i_len <= CTL_ATTR_VALUE_MAX && xv_ctl_i_namelen < XCM_ATTR_NAME_MAX)
-#define XV_CTL_ENT_VALUE(cfm) (xv_ctl_i_len <= CTL_ATTR_VALUE_MAX && (xv_mc < xv_ctl_i_len ==> XV_ANYV((cfm)->attrs[xv_ctl_i], xv_mc) == xv_ctl_i_val_mc))
-#define XV_CTL_ENT_NAME(cfm) (xv_ctl_i_namelen < XCM_ATTR_NAME_MAX && (cfm)->attrs[xv_ctl_i].name[xv_ctl_i_namelen] == 0 && \
-        (xv_ctl_j <= xv_ctl_i_namelen ==> (cfm)->attrs[xv_ctl_i].name[xv_ctl_j] == xv_ctl_i_name_j))
+#define XV_CTL_ENT_VALUE(cp) (xv_ctl_i_len <= CTL_ATTR_VALUE_MAX && (xv_mc < xv_ctl_i_len ==> XV_ATTR_VAL(XV_CFM_ATTRP(cp, xv_ctl_i), xv_mc) == xv_ctl_i_val_mc))
+#define XV_CTL_ENT_NAME(cp) (xv_ctl_i_namelen < XCM_ATTR_NAME_MAX && XV_ATTR_NAME(XV_CFM_ATTRP(cp, xv_ctl_i), xv_ctl_i_namelen) == 0 && \
+        (xv_ctl_j <= xv_ctl_i_namelen ==> XV_ATTR_NAME(XV_CFM_ATTRP(cp, xv_ctl_i), xv_ctl_j) == xv_ctl_i_name_j))
 #if !defined(XV_CTL_TRACK)
-#define XV_CTL_ENT(cfm) (XV_CTL_ENT_SHAPE(cfm) && XV_CTL_ENT_VALUE(cfm) && XV_CTL_ENT_NAME(cfm))
+#define XV_CTL_ENT(cp) (XV_CTL_ENT_SHAPE(cp) && XV_CTL_ENT_VALUE(cp) && XV_CTL_ENT_NAME(cp))
 #elif XV_CTL_TRACK == 1
-#define XV_CTL_ENT(cfm) XV_CTL_ENT_SHAPE(cfm)
+#define XV_CTL_ENT(cp) XV_CTL_ENT_SHAPE(cp)
 #elif XV_CTL_TRACK == 2
-#define XV_CTL_ENT(cfm) XV_CTL_ENT_VALUE(cfm)
+#define XV_CTL_ENT(cp) XV_CTL_ENT_VALUE(cp)
 #else
-#define XV_CTL_ENT(cfm) XV_CTL_ENT_NAME(cfm)
+#define XV_CTL_ENT(cp) XV_CTL_ENT_NAME(cp)
 #endif
-#define XV_CTL_ALL_ENTRY_I(cfm) (xv_ctl_i < (cfm)->attrs_len ==> XV_CTL_ENT(cfm))
+#define XV_CTL_ALL_ENTRY_I(cp) (xv_ctl_i < XV_CFM_LEN(cp) ==> XV_CTL_ENT(cp))
 /* the generated pointer/bounds checks are switched off inside this stub (as in contract text, contracts/begin.h): its
  * accesses are to its own buffers and, in the invariant, to the reply object whose validity the caller's contract states */
 #include "contracts/begin.h"
@@ -495,7 +508,7 @@ void xcm_attr_get_all(struct xcm_socket *s, xcm_attr_cb cb, void *cb_data)
     while (nondet_bool())
     __CPROVER_assigns(xv_ctl_all, __CPROVER_object_whole(name), __CPROVER_object_whole(value), \
                       __CPROVER_object_upto(cb_data, XV_CTL_SIZEOF(struct ctl_proto_get_all_attr_cfm)))
-    __CPROVER_loop_invariant(xv_ctl_all_n < (1UL << 40) && cfm->attrs_len == (xv_ctl_all_n < CTL_PROTO_MAX_ATTRS ? xv_ctl_all_n : CTL_PROTO_MAX_ATTRS))
+    __CPROVER_loop_invariant(xv_ctl_all_n < (1UL << 40) && XV_CFM_LEN(cfm) == (xv_ctl_all_n < CTL_PROTO_MAX_ATTRS ? xv_ctl_all_n : CTL_PROTO_MAX_ATTRS))
     __CPROVER_loop_invariant(XV_CTL_ALL_ENTRY_I(cfm))
     {
         size_t namelen = nondet_size_t(), len = nondet_size_t();
